@@ -796,6 +796,102 @@ func normaliseOnce(pkgs map[string]*packages.Package) int {
 				}
 				return true
 			})
+			// (q) `else { if c {…} }` is `else if c {…}`
+			ast.Inspect(f, func(nd ast.Node) bool {
+				is, ok := nd.(*ast.IfStmt)
+				if !ok {
+					return true
+				}
+				if el, ok := is.Else.(*ast.BlockStmt); ok && len(el.List) == 1 {
+					if in, ok := el.List[0].(*ast.IfStmt); ok {
+						is.Else = in
+						n++
+					}
+				}
+				return true
+			})
+			// (o) the clauses of a switch on a value whose cases are all constants (and never fall through) are
+			// disjoint: they are kept in the order of their first constant, default last
+			ast.Inspect(f, func(nd ast.Node) bool {
+				sw, ok := nd.(*ast.SwitchStmt)
+				if !ok || sw.Tag == nil || len(sw.Body.List) < 2 {
+					return true
+				}
+				keys := map[ast.Stmt]string{}
+				for _, st := range sw.Body.List {
+					cc := st.(*ast.CaseClause)
+					for _, b := range cc.Body {
+						if br, ok := b.(*ast.BranchStmt); ok && br.Tok == token.FALLTHROUGH {
+							return true
+						}
+					}
+					if cc.List == nil {
+						keys[st] = "\xff"
+						continue
+					}
+					var ks []string
+					for _, e := range cc.List {
+						tv, ok := info.Types[e]
+						if !ok || tv.Value == nil {
+							return true
+						}
+						ks = append(ks, tv.Value.ExactString())
+					}
+					sort.Strings(ks)
+					keys[st] = ks[0]
+				}
+				sorted := append([]ast.Stmt{}, sw.Body.List...)
+				sort.SliceStable(sorted, func(i, j int) bool { return keys[sorted[i]] < keys[sorted[j]] })
+				for i := range sorted {
+					if sorted[i] != sw.Body.List[i] {
+						sw.Body.List = sorted
+						n++
+						break
+					}
+				}
+				return true
+			})
+			// (n) `x = x + y` is `x += y`; `x += 1` is `x++`
+			astutil.Apply(f, nil, func(c *astutil.Cursor) bool {
+				as, ok := c.Node().(*ast.AssignStmt)
+				if !ok || len(as.Lhs) != 1 || len(as.Rhs) != 1 {
+					return true
+				}
+				lhs, ok := as.Lhs[0].(*ast.Ident)
+				if !ok {
+					return true
+				}
+				if as.Tok == token.ASSIGN {
+					be, ok := as.Rhs[0].(*ast.BinaryExpr)
+					if !ok {
+						return true
+					}
+					x, ok := be.X.(*ast.Ident)
+					if !ok || x.Name != lhs.Name || info.Uses[x] == nil || info.Uses[x] != info.Uses[lhs] {
+						return true
+					}
+					op, ok := map[token.Token]token.Token{token.ADD: token.ADD_ASSIGN, token.SUB: token.SUB_ASSIGN, token.MUL: token.MUL_ASSIGN, token.OR: token.OR_ASSIGN, token.AND: token.AND_ASSIGN}[be.Op]
+					if !ok {
+						return true
+					}
+					as.Tok, as.Rhs[0] = op, be.Y
+					n++
+				}
+				if as.Tok == token.ADD_ASSIGN || as.Tok == token.SUB_ASSIGN {
+					if lit, ok := as.Rhs[0].(*ast.BasicLit); ok && lit.Kind == token.INT && lit.Value == "1" {
+						if _, inFor := c.Parent().(*ast.ForStmt); inFor {
+							return true
+						}
+						tok := token.INC
+						if as.Tok == token.SUB_ASSIGN {
+							tok = token.DEC
+						}
+						c.Replace(&ast.IncDecStmt{X: as.Lhs[0], TokPos: as.TokPos, Tok: tok})
+						n++
+					}
+				}
+				return true
+			})
 			// (m) a plain continue as the last statement of a loop body does nothing
 			ast.Inspect(f, func(nd ast.Node) bool {
 				var body *ast.BlockStmt
